@@ -64,7 +64,33 @@ def run_target(t, timeout_ms=None):
     try:
         fn, src = load_function(t.relpath, t.qualname)
         ex = t.executor()
+        # the rest of the source file: helpers without a contract of their own are executed in place (module-level functions; methods of the owner class and of its bases in the file)
+        import ast as _ast
+        tree = _ast.parse(src)
+        ex.module_funcs = {n.name: n for n in tree.body if isinstance(n, _ast.FunctionDef) and n.name != t.qualname.split(".")[0].split("@")[0]}
+        classes = {n.name: n for n in tree.body if isinstance(n, _ast.ClassDef)}
+        ex.owner_methods = {}
+        owner = t.qualname.split(".")[0] if "." in t.qualname else None
+        todo, seen_cls = [owner], set()
+        while todo:
+            cn = todo.pop()
+            if cn in seen_cls or cn not in classes:
+                continue
+            seen_cls.add(cn)
+            for m in classes[cn].body:
+                if isinstance(m, _ast.FunctionDef) and not m.decorator_list and m.name not in ex.owner_methods and m.name != t.qualname.split(".")[-1].split("@")[0]:
+                    ex.owner_methods[m.name] = m
+            todo.extend(_ast.unparse(b).split(".")[-1] for b in classes[cn].bases)
         state, args, ctx = t.setup(ex)
+        # module-level constants of the source file (NAME = <literal>): visible to the function like any global, unless the target's own setup binds the name
+        for n_ in tree.body:
+            if isinstance(n_, _ast.Assign) and len(n_.targets) == 1 and isinstance(n_.targets[0], _ast.Name):
+                try:
+                    val = _ast.literal_eval(n_.value)
+                except Exception:
+                    continue
+                if isinstance(val, (int, float, str, bool, tuple, list)) and n_.targets[0].id not in state.glob and n_.targets[0].id not in state.env:
+                    state.glob[n_.targets[0].id] = val
         if isinstance(args, tuple) and len(args) == 2 and isinstance(args[1], dict):
             args, kw = args
         else:
@@ -137,6 +163,7 @@ def run_target(t, timeout_ms=None):
                 res["undecided"].append({"obligation": "%s.%s" % (t.name, clause), "reason": "z3 unknown"})
         res["notes"].extend(sorted(set("havoc: " + h.split("$")[0] for h in ex.havocs_used)))
         res["notes"].extend(sorted(set("ASSUMED loop summary (not proved): " + a for a in getattr(ex, "assumed_summaries", []))))
+        res["notes"].extend(sorted("executed in place (no contract of its own): " + a for a in getattr(ex, "inlined", set())))
     except Unsupported as e:
         res["status"] = "outside-subset"
         res["notes"].append("outside the pyvc subset: %s" % e)
